@@ -17,6 +17,7 @@ FLAVOURS = {
     'rare': 'In this round prefer changes in code that is rarely looked at (non-default integrators and options, error paths, the Python layer, tables) over the main loops.\n',
     'refactoring': 'In this round, write each change the way regressions usually arrive in practice: as part of a plausible small REFACTORING or clean-up commit (extracting a helper, hoisting a common sub-expression, replacing an if-chain by a table or a loop, merging two similar branches, renaming and re-ordering, modernising an idiom) in which one corner case silently changes behaviour - the diff should read as a harmless tidy-up to a reviewer. Prefer sites where the cause (the edited function) and the effect (where the property visibly fails) are in different functions or files, and option combinations or call sequences that nothing in the test suite exercises. The whole repository is in scope: src/*.c, src/rebound.h, rebound/*.py.\n',
     'feature': 'In this round, write each change the way regressions arrive with FEATURE and PERFORMANCE work: (1) a small new capability (a new option value, a new struct member, a new convenience argument, a new early exit for a common case) where ONE of the places that have to be updated in lockstep was forgotten or updated inconsistently; or (2) an optimisation (caching a value across calls or steps, skipping a recomputation when "nothing changed", fusing or splitting loops, replacing a division by a multiplication with a precomputed inverse, reusing a buffer) whose validity condition is subtly too weak. The diff should read as a reasonable improvement to a reviewer, and the existing behaviour must be unchanged except in the corner the property cares about. The whole repository is in scope: src/*.c, src/rebound.h, rebound/*.py.\n',
+    'edge': 'In this round, aim at the EDGES of the input space that the property quantifies over and that everyday use never visits: zero or one particle, exactly two, N_active = 0 / 1 / N, a negative or zero timestep, integrating backwards, a target time equal to the current time, zero mass or zero radius, e = 0 or inc = 0 or pi exactly, an empty or single-snapshot archive, the first or last index, the last byte, an option switched between two calls, the same call made twice. The change should be a slip that is invisible in the bulk of the input space (ideally bit-identical there) and wrong only on such an edge - a loop bound, a comparison that should be non-strict, an initial value, a special case handled in one of two sibling functions only, a default that is applied where an explicit 0 was given. The whole repository is in scope: src/*.c, src/rebound.h, rebound/*.py.\n',
 }
 
 
